@@ -138,6 +138,10 @@ fn one_op<B: InspectMut>(b: &mut B, op: &str) -> String {
             if k > l { return format!("short:{}", l); }
             unsafe { b.advance_mut(k) }; format!("ok:{}", l)
         }
+        "ub" => { // UninitSlice::write_byte at an index at or beyond the end of the chunk: must panic, must not write
+            let d: &mut UninitSlice = b.chunk_mut(); let l = d.len(); d.write_byte(l + num(1), num(2) as u8); format!("wrote:{}", l) }
+        "uc" => { // UninitSlice::copy_from_slice with a source of the wrong length: must panic
+            let src = vec![num(2) as u8; 64]; let d: &mut UninitSlice = b.chunk_mut(); let l = d.len(); let k = if num(1) == l { l + 1 } else { num(1) }; d.copy_from_slice(&src[..k.min(64)]); format!("copied:{}", l) }
         "amx" => { let l = b.chunk_mut().len(); unsafe { b.advance_mut(l + 1 + num(1)) }; "ok".into() }
         "ps" => { b.put_slice(&unhx(f[1])); "ok".into() }
         "pb" => { b.put_bytes(num(1) as u8, num(2)); "ok".into() }
@@ -244,6 +248,7 @@ pub fn bufmut_random(out: &mut dyn Write, seed: u64, n: usize, maxdepth: u32) {
                 0 => "rm".to_string(), 1 => "hrm".into(), 2 | 3 => "cm".into(),
                 4 | 5 => { let k = rng.below(5) as usize; format!("cw:{}:{}", k, rng.below(200)) }
                 6 if all_fixed => format!("amx:{}", rng.below(3)),
+                6 => if rng.chance(1, 2) { format!("ub:{}:{}", rng.below(2), rng.below(256)) } else { format!("uc:{}:{}", rng.below(8), rng.below(256)) },
                 7 | 8 | 9 => { let k = k_in(&mut rng, left); left = left.saturating_sub(k); format!("ps:{}", hx(&rng.bytes(k))) }
                 10 | 11 => { let k = k_in(&mut rng, left); left = left.saturating_sub(k); format!("pb:{}:{}", rng.below(256), k) }
                 12 | 13 => { let k = k_in(&mut rng, left); left = left.saturating_sub(k); format!("pu:{}", small_src(&mut rng, k)) }
